@@ -94,9 +94,9 @@ func (it *NativeIterator) Merge(oldval []byte) (val []byte, err error) {
 		// Not in destination db
 
 		// Sweeper: check if it is a stale deletion record to not re-add a
-		// record that may just have been swept.
-		entryFlags := entry.MaskedFlags()
-		if entryFlags.IsDeleted() && header.Timestamp(entry.TimestampNano) < it.DeletedCutoff {
+		// record that may just have been swept. Format v1 snapshots mark
+		// deletions with an empty value instead of a flag.
+		if it.entryDeleted(entry) && header.Timestamp(entry.TimestampNano) < it.DeletedCutoff {
 			// Remove (effectively 'do not add', because it does not exist)
 			return nil, nil
 		}
